@@ -7,10 +7,14 @@ ROOT = '$root'
 
 
 class RefLALR:
-    def __init__(self, g):
+    def __init__(self, g, starts=None):
+        """starts: several start symbols -> ONE automaton with one root production per start symbol (what
+        Lark(start=[...]) builds); states reached from different roots are merged by core like all others."""
         self.g = g
+        self.starts = list(starts) if starts else [g.start]
         # rules: (lhs, rhs tuple of symbols, priority); symbols: ('ref',A) or terminal keys
-        self.rules = [(ROOT, (('ref', g.start),), 0)]
+        self.rules = [((ROOT if len(self.starts) == 1 else '%s_%s' % (ROOT, s_)), (('ref', s_),), 0) for s_ in self.starts]
+        self.nroots = len(self.rules)
         for r in g.rules.values():
             for seq, _ in r.alts:
                 self.rules.append((r.name, tuple(seq), r.prio or 0))
@@ -78,11 +82,15 @@ class RefLALR:
         return frozenset(items)
 
     def _build(self):
-        start = self.closure({(0, 0, END)})
-        states = {start: 0}
-        order = [start]
+        roots = [self.closure({(i, 0, END)}) for i in range(self.nroots)]
+        start = roots[0]
+        states, order = {}, []
+        for st0 in roots:
+            if st0 not in states:
+                states[st0] = len(order)
+                order.append(st0)
         trans = {}
-        todo = [start]
+        todo = list(order)
         while todo:
             st = todo.pop()
             by_sym = {}
@@ -104,6 +112,7 @@ class RefLALR:
         for st in order:
             self.cores.setdefault(core_of[st], set()).update(st)
         self.start_core = core_of[start]
+        self.start_cores = {s_: core_of[roots[i]] for i, s_ in enumerate(self.starts)}
         self.shift = {}      # (core, sym) -> core
         for (st, sym), nxt in trans.items():
             self.shift[core_of[st], sym] = core_of[nxt]
@@ -111,10 +120,11 @@ class RefLALR:
         for core, items in self.cores.items():
             red = {}
             for ri, dot, la in items:
-                if dot == len(self.rules[ri][1]) and ri != 0:
+                if dot == len(self.rules[ri][1]) and ri >= self.nroots:
                     red.setdefault(la, set()).add(ri)
             self.reduce[core] = red
-        self.end_core = self.shift.get((self.start_core, ('ref', self.g.start)))
+        self.end_core = self.shift.get((self.start_core, ('ref', self.starts[0])))
+        self.end_cores = {s_: self.shift.get((self.start_cores[s_], ('ref', s_))) for s_ in self.starts}
 
     # -- conflicts and the resolved action table
     def rr_conflicts(self):
@@ -157,18 +167,19 @@ class RefLALR:
         return {core: self.row(core) for core in self.cores}
 
     # -- simulator
-    def sim(self):
-        return Sim(self)
+    def sim(self, start=None):
+        return Sim(self, start=start)
 
 
 class Sim:
-    def __init__(self, ref, stack=None):
+    def __init__(self, ref, stack=None, start=None, end=None):
         self.ref = ref
         self.table = ref._table if hasattr(ref, '_table') else ref.__dict__.setdefault('_table', ref.table())
-        self.stack = stack or [ref.start_core]
+        self.stack = stack or [ref.start_cores[start] if start else ref.start_core]
+        self.end = end if end is not None else (ref.end_cores[start] if start else ref.end_core)
 
     def copy(self):
-        return Sim(self.ref, list(self.stack))
+        return Sim(self.ref, list(self.stack), end=self.end)
 
     def feed(self, sym):
         """Feed a terminal key (or END).  Returns 'shift' | 'accept' | 'error'.  On error the stack is left where the
@@ -188,7 +199,7 @@ class Sim:
             if rhs:
                 del self.stack[-len(rhs):]
             self.stack.append(self.table[self.stack[-1]][('ref', lhs)][1])
-            if sym == END and self.stack[-1] == self.ref.end_core:
+            if sym == END and self.stack[-1] == self.end:
                 return 'accept'
 
     def terminals(self):
